@@ -6,7 +6,7 @@ import lzma
 from vlib import core, e2e, coord_common, worker_traces
 from vlib.props.C08 import rec as utmp_rec
 
-MODS = ['S4V.Props.C06', 'S4V.Props.CoordSpec', 'S4V.Props.LinesSpec', 'S4V.Props.WorkerProtoSpec']
+MODS = ['S4V.Props.C06', 'S4V.Props.CoordSpec', 'S4V.Props.LinesSpec', 'S4V.Props.WorkerProtoSpec', 'S4V.Props.CoordSkelSpec', 'S4V.Props.CoordSkelMutants']
 LEVEL_NOTE = ("Proved (the part that is logic): in the coordinator model, for every schedule and arbitrary scripts of the other sources — "
               "messages then stop with or without a summary, error FileInfo + summary, data after a summary — the output restricted to the healthy sources is the merge "
               "of the healthy sources (C07_isolation), the run ends (terminates), errs = 0 iff every source delivered only ok data and a summary (errs_zero_iff); the "
